@@ -206,8 +206,13 @@ def remap_model(m, species):
     return m
 
 
+def _parent(which, world, mid):
+    """'world' | 'mid' | 'none' (the node is detached from the scene graph)"""
+    return world if which == "world" else mid if which == "mid" else None
+
+
 def build_plasma(cfg, world, mid):
-    plasma = Plasma(parent=world if cfg["parent"] == "world" else mid, transform=mk_tf(cfg["tf"]))
+    plasma = Plasma(parent=_parent(cfg["parent"], world, mid), transform=mk_tf(cfg["tf"]))
     plasma.b_field = (lambda x, y, z, b=cfg["b"]: Vector3D(b[0], b[1], b[2]))
     plasma.electron_distribution = mk_electrons(cfg["e"])
     plasma.composition = [mk_species(s) for s in cfg["species"]]
@@ -227,7 +232,7 @@ def mk_bmodel(m):
 
 
 def build_beam(cfg, world, mid, plasma):
-    beam = Beam(parent=world if cfg["parent"] == "world" else mid, transform=mk_tf(cfg["tf"]))
+    beam = Beam(parent=_parent(cfg["parent"], world, mid), transform=mk_tf(cfg["tf"]))
     beam.plasma = plasma
     beam.atomic_data = mk_ad(cfg["ad"])
     beam.energy = cfg["energy"]
@@ -268,7 +273,7 @@ def mk_spectrum(s):
 
 
 def build_laser(cfg, world, mid, plasma):
-    laser = Laser(parent=world if cfg["parent"] == "world" else mid, transform=mk_tf(cfg["tf"]))
+    laser = Laser(parent=_parent(cfg["parent"], world, mid), transform=mk_tf(cfg["tf"]))
     laser.plasma = plasma
     laser.laser_profile = mk_profile(cfg["profile"])
     laser.laser_spectrum = mk_spectrum(cfg["spectrum"])
@@ -431,8 +436,8 @@ class SceneBase:
 
     def do_p_parent(self, which):
         self.rec["plasma"]["parent"] = which
-        self.live.plasma.parent = self.live.world if which == "world" else self.live.mid
-        self._mut("p_parent")
+        self.live.plasma.parent = _parent(which, self.live.world, self.live.mid)
+        self._mut("p_parent:" + which)
 
     def do_mid_tf(self, tf):
         self.rec["mid"] = tf
@@ -447,7 +452,7 @@ class SceneBase:
         "p_electrons": lambda: st.fixed_dictionaries({"n": _prof(1e18, 1e20), "t": _prof(5.0, 2e3)}),
         "p_comp_add": _species,
         "p_tf": _tf,
-        "p_parent": lambda: st.sampled_from(["world", "mid"]),
+        "p_parent": lambda: st.sampled_from(["world", "mid", "world", "mid", "none"]),
         "mid_tf": _tf,
     }
 
@@ -515,6 +520,20 @@ class PlasmaScene(SceneBase):
                 break
         self._mut("p_brems_gaunt:" + ("provider" if g is None else "user"))
 
+    def do_p_models_reattach(self, a):
+        """detach all models and attach the very same Python objects again (their caches were filled before)"""
+        objs = list(self.live.plasma.models)
+        if a == "clear-set":
+            self.live.plasma.models.clear()
+            self.live.plasma.models = objs
+        elif a == "set-same":
+            self.live.plasma.models = objs
+        else:                       # reversed order
+            objs.reverse()
+            self.rec["plasma"]["models"].reverse()
+            self.live.plasma.models = objs
+        self._mut("p_models_reattach:" + a)
+
     def do_p_models_clear(self, a):
         self.rec["plasma"]["models"] = []
         self.live.plasma.models.clear()
@@ -532,6 +551,7 @@ class PlasmaScene(SceneBase):
         "p_models_add": _pmodel,
         "p_models_clear": lambda: st.just(None),
         "p_brems_gaunt": lambda: st.sampled_from([None, 1, 2]),
+        "p_models_reattach": lambda: st.sampled_from(["clear-set", "set-same", "reversed"]),
     })
 
 
@@ -619,6 +639,8 @@ class BeamScene(SceneBase):
         self._num("temperature", "temperature", v)
 
     def do_b_element(self, v):
+        if v == "same":          # re-assignment of the current element (still a setter call); keeps BES models usable
+            v = self.rec["beam"]["element"]
         self.rec["beam"]["element"] = v
         self._b().element = getattr(EL, v)
         self._mut("b_element")
@@ -679,8 +701,8 @@ class BeamScene(SceneBase):
 
     def do_b_parent(self, which):
         self.rec["beam"]["parent"] = which
-        self._b().parent = self.live.world if which == "world" else self.live.mid
-        self._mut("b_parent")
+        self._b().parent = _parent(which, self.live.world, self.live.mid)
+        self._mut("b_parent:" + which)
 
     def pre_mid_tf(self):
         return not is_open("C01-beam-modified-cdef")
@@ -750,7 +772,7 @@ class BeamScene(SceneBase):
         "b_energy": lambda: st.sampled_from([1.5e4, 4e4, 8e4]),
         "b_power": lambda: st.sampled_from([5e4, 1e6, 3e6]),
         "b_temperature": lambda: st.sampled_from([2.0, 10.0, 40.0]),
-        "b_element": lambda: st.sampled_from(["deuterium", "hydrogen"]),
+        "b_element": lambda: st.sampled_from(["same", "same", "deuterium", "hydrogen"]),
         "b_sigma": lambda: st.sampled_from([0.04, 0.08, 0.15]),
         "b_div": lambda: st.tuples(st.sampled_from([0.0, 0.7, 2.5]), st.sampled_from([0.0, 1.0, 4.0])),
         "b_length": lambda: st.sampled_from([1.0, 2.0, 3.4]),
@@ -758,7 +780,7 @@ class BeamScene(SceneBase):
         "b_ad": lambda: st.sampled_from(["A", "B"]),
         "b_integrator": lambda: st.tuples(st.sampled_from(["swap", "inplace"]), _step),
         "b_tf": lambda: st.tuples(st.sampled_from([0.0, 0.05, -0.1]), st.sampled_from([0.0, 4.0, -7.0])),
-        "b_parent": lambda: st.sampled_from(["world", "mid"]),
+        "b_parent": lambda: st.sampled_from(["world", "mid", "world", "mid", "none"]),
         "b_att_swap": _att,
         "b_att_step": lambda: st.sampled_from([0.02, 0.05, 0.11]),
         "b_att_clamp_sigma": lambda: st.sampled_from([2.0, 3.5, 5.0]),
@@ -922,8 +944,8 @@ class LaserScene(SceneBase):
 
     def do_l_parent(self, which):
         self.rec["laser"]["parent"] = which
-        self._l().parent = self.live.world if which == "world" else self.live.mid
-        self._mut("l_parent")
+        self._l().parent = _parent(which, self.live.world, self.live.mid)
+        self._mut("l_parent:" + which)
 
     OPS = dict(SceneBase.BASE_OPS)
     OPS.update({
@@ -937,7 +959,7 @@ class LaserScene(SceneBase):
         "l_plasma": lambda: st.sampled_from(["a", "b"]),
         "l_models": lambda: st.sampled_from([0, 1, 1, 2]),
         "l_tf": lambda: st.tuples(st.sampled_from([0.0, 0.01, -0.02]), st.sampled_from([0.0, 1.0, -2.0])),
-        "l_parent": lambda: st.sampled_from(["world", "mid"]),
+        "l_parent": lambda: st.sampled_from(["world", "mid", "world", "mid", "none"]),
     })
 
 
